@@ -71,6 +71,15 @@ func (f *frame) checkSiteAnchors() {
 				f.c.warn = append(f.c.warn, fmt.Sprintf("%s: call %d of %s is not annotated although the contract models %s on ghost state", sp.Key, i, k, k))
 			}
 		}
-		f.emit("cover", f.oblName("cover("+k+")"), True, goal, f.fn.Pos(), nil)
+		o := f.emit("cover", f.oblName("cover("+k+")"), True, goal, f.fn.Pos(), nil)
+		// decided on the SSA, no solver involved
+		o.Static = true
+		o.Solver = "ssa"
+		if goal == True {
+			o.Result = "unsat"
+		} else {
+			o.Result = "sat"
+			o.Output = "a call of " + k + " is not annotated although the contract models it on ghost state"
+		}
 	}
 }
